@@ -135,7 +135,7 @@ func localObj(f *FuncInfo, name string) types.Object {
 
 // ruleLeafrefErr: R-LEAFREF-ERR.
 func ruleLeafrefErr(c *Ctx, r *Report) {
-	r.Rule("R-LEAFREF-ERR", "leafref errors are suppressed only under opt.IgnoreMissingData: leafrefErrOrLog returns nil only when IgnoreMissingData is true; ValidateLeafRefData skips the walk only under IgnoreMissingData and otherwise returns ForEachField's result; the per-node iterator returns nil only for nil nodes, non-leafref nodes or after a successful match; every error of the path/lookup/match helpers is tested and returned", 9)
+	r.Rule("R-LEAFREF-ERR", "leafref errors are suppressed only under opt.IgnoreMissingData: leafrefErrOrLog returns nil only when IgnoreMissingData is true; ValidateLeafRefData skips the walk only under IgnoreMissingData and otherwise returns ForEachField's result; the per-node iterator returns nil only for nil nodes, non-leafref nodes or after a successful match; every error of the path/lookup/match helpers is tested and returned", 6)
 	const lo = "LeafrefOptions"
 	if f := c.MustFunc(r, "ytypes", "leafrefErrOrLog"); f != nil {
 		info := f.Info()
